@@ -156,7 +156,8 @@ def run(ctx):
     # ALM runs, with this property's KKT oracle on every composed run that ends Converged
     from vf.props import ALMPANOC
     ALMPANOC.attach(ctx, extra_oracle=oracle)
-    # the other composed stacks (AlmZeroFpr.v, AlmPantr.v, AlmFista.v and — the shipped default — AlmPanocDir.v with the providers of Directions.v):
-    # whole ALM runs of the real stacks vs the composed models, with this property's KKT oracle on every composed run
+    # the other composed stacks (AlmZeroFpr.v, AlmPantr.v, AlmFista.v, — the shipped default — AlmPanocDir.v and AlmZeroFprDir.v with the four providers
+    # of Directions.v; end-to-end theorems C01_alm_{panoc,zerofpr}_{lbfgs,anderson,struclbfgs,noop}_converged_is_kkt): whole ALM runs of the real
+    # stacks vs the composed models, with this property's KKT oracle on every composed run
     from vf.props import ALMSTACKS
     ALMSTACKS.attach(ctx, scale=1.5, extra_oracle=oracle)
